@@ -333,23 +333,30 @@ theorem C02_ready_of_connector6 (tl : Bool) (sched : List (Move (proto6 tl))) (w
     Tw.Conn.Event.ready ∈ (w.get s).events :=
   P6.ready_of_connector6 tl sched w hrun s h1 h2
 
-/-- **0.6, handshake and online phase composed**: from every world reachable by an admissible schedule
-in which `a` has called `connect`, `b` has not (see `C02_simultaneous_open6_witness` for why the
-roles are needed) and nobody is disconnected, at most **five** rounds of the fair suffix (`b` can draw
-a token from `draws`) end with `a` online and told `Ready`, everything handed over and acknowledged on
-both sides (`quiescentH`: `b` may still be `Pending` if `a` never sent a chunk), all queues empty.
-No "both sides online" hypothesis.  `_partial` because of `hx` — "the acceptor is not online while the
-connector is still connecting" — which no reachable world violates (invariant in progress). -/
-theorem C02_open_progress6_partial (tl : Bool) (draws : List Nat) (alt : (proto6 tl).Alt) (nt : Nat)
+/-- no acceptor is online while its peer is still connecting (every reachable world) -/
+theorem C02_no_online_acceptor_while_connecting6 (tl : Bool) (sched : List (Move (proto6 tl)))
+    (w : World (proto6 tl)) (hrun : NetSim.run (World.init (proto6 tl)) sched = some w) (s : Side)
+    (h1 : (w.get s).conn.state = .connecting) (h2 : ¬ P6.hasConnect (w.get s.other)) (t : Option Nat)
+    (o : Tw.Conn.Online) : (w.get s.other).conn.state ≠ .online t o :=
+  P6.no_online_acceptor_while_connecting6 tl sched w hrun s h1 h2 t o
+
+/-- **0.6, handshake and online phase composed — the full progress statement for 0.6**: from every
+world reachable by an admissible schedule (arbitrary loss, duplication, reordering, delay and
+application calls) in which `a` has called `connect`, `b` has not (`C02_simultaneous_open6_witness`
+shows the roles are necessary) and nobody is disconnected, at most **five** rounds of the fair suffix
+— every datagram delivered once in order, both sides tick at their reported deadline; the acceptor's
+random source can produce a token — end with `a` online and told `Ready`, everything handed over and
+acknowledged on both sides, all queues empty (`quiescentH`: `b` is still `Pending` if `a` never sent
+a chunk).  No shape hypothesis on the starting world. -/
+theorem C02_open_progress6 (tl : Bool) (draws : List Nat) (alt : (proto6 tl).Alt) (nt : Nat)
     (hnt : Tw.Conn6.tokenRandom draws = some nt) (sched : List (Move (proto6 tl))) (w : World (proto6 tl))
     (hadm : admissible (World.init (proto6 tl)) sched = true)
     (hrun : NetSim.run (World.init (proto6 tl)) sched = some w)
     (ha : P6.hasConnect w.a) (hb : ¬ P6.hasConnect w.b)
-    (hda : w.a.conn.state ≠ .disconnected) (hdb : w.b.conn.state ≠ .disconnected)
-    (hx : w.a.conn.state = .connecting → ∀ t o, w.b.conn.state ≠ .online t o) :
+    (hda : w.a.conn.state ≠ .disconnected) (hdb : w.b.conn.state ≠ .disconnected) :
     ∃ k, k ≤ 5 ∧ ∃ s', fairRoundsT draws alt k (FairState.start w) = some s' ∧ s'.w.quiescentH ∧
       (∃ t o s, s'.w.a.conn = ⟨.online t o, s⟩) ∧ Tw.Conn.Event.ready ∈ s'.w.a.events :=
-  P6.open_progress6_x tl draws alt nt hnt sched w hadm hrun ha hb hda hdb hx
+  P6.open_progress6 tl draws alt nt hnt sched w hadm hrun ha hb hda hdb
 
 end Timed
 
